@@ -190,7 +190,9 @@ where
                 return false;
             }
         }
-        true
+        // `interpolate(from, to, 1.0)` need not return `to` bit for bit, so the end state itself
+        // must be accepted by the checker as well.
+        vc.is_valid(to)
     }
 }
 
